@@ -672,6 +672,50 @@ func (r *walRun) boundaryHistory() {
 	}
 }
 
+// drainedHistory: the queue is DRAINED (every message consumed and acknowledged, Sync: the queue-wide acknowledged
+// position equals the appended one) when it is closed; it is reopened, more messages are appended -- they continue
+// behind the last message, in the page the log had reached -- then GC, reads, a second drain and reopen.  With `big`
+// the log has rolled over to a later data page before it is drained.
+func (r *walRun) drainedHistory(big bool) {
+	rng := r.rng
+	const mib = 1024 * 1024
+	if !r.createGroup("g1", false) {
+		panic(walAbort{})
+	}
+	reads := func() {
+		q := r.fq.Queue()
+		for x := q.AcknowledgedSeq(); x <= q.AppendedSeq()+1; x++ {
+			r.rec.Emit("Get", trace.F{"s": x, "res": getRes(q, r.w, x)})
+		}
+	}
+	drain := func() {
+		for r.groups["g1"].Pending() > 0 {
+			r.consume("g1")
+		}
+		r.ack("g1", r.groups["g1"].ConsumedSeq())
+		r.syncGC()
+	}
+	for round := 0; round < 2; round++ {
+		if big {
+			r.put(70*mib + rng.Intn(10*mib))
+			r.put(60*mib + rng.Intn(10*mib)) // rolls over
+		}
+		for i := 0; i < 1+rng.Intn(3); i++ {
+			r.put(1 + rng.Intn(60))
+		}
+		drain()
+		r.reopen()
+		r.ensureGroup("g1")
+		for i := 0; i < 1+rng.Intn(3); i++ {
+			r.put(1 + rng.Intn(60))
+		}
+		reads()
+		r.syncGC()
+		reads()
+		r.consume("g1")
+	}
+}
+
 // boundaryGCHistory: the acknowledged position and the append position lie in DIFFERENT index pages when Sync + GC run.
 // A group exists; the append position is moved forward (explicit reset, the group follows) to three below a multiple of
 // the index page capacity; messages large enough to roll the data pages over are appended across the index page edge;
@@ -790,6 +834,7 @@ func walMain(args []string) int {
 	nconc := fs.Int("concurrent", 0, "concurrent-appender histories (gated)")
 	ngconc := fs.Int("groupconc", 0, "histories with one consuming and one acknowledging thread on the same group (gated)")
 	scratch := fs.String("scratch", "", "scratch directory")
+	drained := fs.Int("drained", 0, "histories in which a drained queue (everything acknowledged and synced) is reopened and appended to; every third one after a roll-over")
 	boundgcs := fs.Int("boundarygc", 0, "histories in which Sync + GC run while the acknowledged and the append position lie in different index pages (and data pages)")
 	scripts := fs.String("scripts", "", "leg R: JSON file with behaviours generated by TLC from WALQueueGen (list of lists of calls), run after the other histories, imaged after every store")
 	unit := fs.Int("unit", 1, "bytes per length unit of the generated behaviours")
@@ -820,14 +865,15 @@ func walMain(args []string) int {
 	sum := &trace.Summary{Module: "WALQueue", Extra: map[string]any{}}
 	nimages, nstores := 0, 0
 	distinct := map[string]bool{}
-	nfixed := *nh + *bigs + *bounds + *rollfails + *groupfails + *boundgcs
+	nfixed := *nh + *bigs + *bounds + *rollfails + *groupfails + *boundgcs + *drained
 	for h := 0; h < nfixed+len(gen); h++ {
 		generated := h >= nfixed
 		big := h >= *nh && h < *nh+*bigs
 		boundary := h >= *nh+*bigs && h < *nh+*bigs+*bounds
 		rollfail := h >= *nh+*bigs+*bounds && h < *nh+*bigs+*bounds+*rollfails
 		groupfail := h >= *nh+*bigs+*bounds+*rollfails && h < *nh+*bigs+*bounds+*rollfails+*groupfails
-		boundgc := h >= *nh+*bigs+*bounds+*rollfails+*groupfails && !generated
+		boundgc := h >= *nh+*bigs+*bounds+*rollfails+*groupfails && h < *nh+*bigs+*bounds+*rollfails+*groupfails+*boundgcs
+		isDrained := h >= *nh+*bigs+*bounds+*rollfails+*groupfails+*boundgcs && !generated
 		root := filepath.Join(*scratch, fmt.Sprintf("h%d", h))
 		w := walwrap.NewWorld(root, rec)
 		restore := w.Install()
@@ -841,6 +887,9 @@ func walMain(args []string) int {
 		}
 		if boundgc {
 			reset = trace.F{"mode": "boundarygc", "h": h}
+		}
+		if isDrained {
+			reset = trace.F{"mode": "drained", "h": h}
 		}
 		rec.Reset(reset)
 		rec.Tap = func(b []byte) { run.lines = append(run.lines, append([]byte{}, b...)) }
@@ -872,6 +921,8 @@ func walMain(args []string) int {
 				run.scriptHistory(gen[h-nfixed], *unit)
 			} else if boundgc {
 				run.boundaryGCHistory()
+			} else if isDrained {
+				run.drainedHistory(h%3 == 2)
 			} else if big {
 				run.bigHistory()
 			} else if boundary {
